@@ -1215,3 +1215,44 @@ def strip_old(t):
         else:
             out.append(x)
     return tuple(out)
+
+
+def fn_summary_key(facts, body, perm=None, maxrows=48):
+    """Spelling-independent fingerprint of a loop-free function: its path summaries with the parameters replaced by
+    positional placeholders (perm: current position -> reference position, 0-based). None for functions with loops or too
+    many paths. Used only to recognise a vocabulary function after a rename / parameter reordering."""
+    if body.back_edges():
+        return None
+    n = body.j['arg_count']
+    perm = perm or list(range(n))
+
+    def ph(t):
+        if not isinstance(t, tuple):
+            return t
+        if t[0] == 'v' and isinstance(t[2], int) and 1 <= t[2] <= n:
+            return ('v', 'P%d' % (perm[t[2] - 1] + 1), 0)
+        if t[0] == 'call':
+            return ('call', t[1], [ph(a) for a in t[2]], None)
+        out = []
+        for x in t:
+            if isinstance(x, tuple):
+                out.append(ph(x))
+            elif isinstance(x, list):
+                out.append([ph(y) if isinstance(y, tuple) else y for y in x])
+            elif isinstance(x, dict):
+                out.append({k: (ph(v) if isinstance(v, tuple) else v) for k, v in x.items()})
+            else:
+                out.append(x)
+        return tuple(out)
+    try:
+        rows = Sym(facts, body, maxrows=maxrows).rows()
+    except Exception:
+        return None
+    items = []
+    for r in rows:
+        if r.end == 'diverge':
+            continue
+        conds = sorted('%s=%s' % (cstr(ph(c)), v) for c, v in r.conds)
+        eff = [('%s:=%s' % (cstr(ph(e[1])), cstr(ph(e[2]))) if e[0] == 'store' else cstr(ph(e[1]))) for e in r.effects if e[0] in ('call', 'store')]
+        items.append('|'.join(conds) + ' => ' + (cstr(ph(r.ret)) if r.ret is not None else '-') + ' ; ' + ','.join(eff))
+    return '\n'.join(sorted(items))
